@@ -481,3 +481,105 @@ def token_syntax_by_hand(ctx, ctor):
 
 def show_token(tok, other):
     return "".join("<any>" if b == other else (chr(b) if 32 <= b < 127 else "\\x%02x" % b) for b in tok)
+
+
+def handlers_of(f):
+    """[(block id, catch node)] - the heads of f's catch handlers"""
+    out = []
+    for bid in f.blocks:
+        es = f.elems(bid)
+        if es and isinstance(es[0].get("expr"), dict) and es[0]["expr"].get("k") == "catch":
+            out.append((bid, es[0]["expr"]))
+    return out
+
+
+def handler_outcomes(f, hb, cn):
+    """how control can leave the handler that starts in block hb: {"normal": [line]} when a path runs out of the handler's source
+    range (the exception is gone), "rethrow": [...], "raise": [(exception type or None, node)]"""
+    lo, hi = cn.get("ln") or 0, cn.get("endln") or 0
+    res = {"normal": [], "rethrow": [], "raise": []}
+    seen = set()
+    st = [hb]
+    while st:
+        b = st.pop()
+        if b in seen:
+            continue
+        seen.add(b)
+        left = False
+        ended = False
+        for e in f.elems(b):
+            x = e.get("expr")
+            ln = e.get("ln") or (x.get("ln") if isinstance(x, dict) else None)
+            if ln is not None and not (lo <= ln <= hi):
+                left = True
+                break
+            if not isinstance(x, dict):
+                continue
+            for n in walk(x, into_sc=False):
+                if n.get("k") == "throw":
+                    if n.get("e") is None:
+                        res["rethrow"].append(n)
+                    else:
+                        t = ir.unwrap(n["e"])
+                        res["raise"].append(((t.get("type") or t.get("name")) if isinstance(t, dict) else None, n))
+                    ended = True
+                elif n.get("k") == "call" and n.get("noreturn"):
+                    cid = n.get("callee") or ""
+                    res["raise"].append((cid.split("#<", 1)[1].split(",")[0].strip() if "#<" in cid else None, n))
+                    ended = True
+            if ended:
+                break
+        if ended:
+            continue
+        tl = f.term(b).get("ln")
+        if left or b == f.exit or (tl is not None and not (lo <= tl <= hi)):
+            res["normal"].append(b)
+            continue
+        for to, lab in f.succs(b):
+            st.append(to)
+    return res
+
+
+_UNRELATED_CAUGHT = ("std::ios_base::failure", "std::bad_alloc", "std::bad_cast", "std::system_error", "std::bad_function_call")
+
+
+def rule_handlers(ctx, rule, scope, errors, what, minimum=1):
+    """G-handlers: on the path that carries a property's documented error, a catch handler neither lets an exception vanish
+    (the handler can complete normally) nor turns the documented error into another class.
+    scope: predicate on Fn; errors: qualified names of the documented error classes."""
+    prog = ctx.prog
+    nf = 0
+    nh = 0
+    seen = set()
+    for f in sorted(prog.fns.values(), key=lambda g: g.id):
+        if not f.has_cfg or not f.file.startswith("/repo/") or not scope(f):
+            continue
+        key = (f.file, f.line)
+        if key in seen:
+            continue
+        seen.add(key)
+        nf += 1
+        for hb, cn in handlers_of(f):
+            nh += 1
+            ct = (cn.get("type") or "...").replace("const ", "").strip()
+            out = handler_outcomes(f, hb, cn)
+            tag = "%s:catch(%s)" % (short(f.qual), short(ct) if ct != "..." else "...")
+            if ct in _UNRELATED_CAUGHT or short(ct) in [short(u) for u in _UNRELATED_CAUGHT]:
+                ctx.ok(rule, f, "handler:" + tag, "catches %s only" % ct, (f, cn.get("ln")))
+                continue
+            if out["normal"]:
+                ctx.bad(rule, f, "handler-swallows:" + tag, "%s catches %s and can carry on as if nothing had happened: %s" % (short(f.qual), ct, what), (f, cn.get("ln")))
+                continue
+            wrong = [(t, n) for (t, n) in out["raise"] if ct in errors and t is not None and t != ct and t not in errors]
+            if wrong:
+                ctx.bad(rule, f, "handler-translates:" + tag, "%s catches %s and raises %s instead: callers that handle the documented error class no longer see it (%s)"
+                        % (short(f.qual), ct, wrong[0][0], what), (f, wrong[0][1].get("ln")))
+                continue
+            ctx.ok(rule, f, "handler:" + tag, "leaves only by %s" % ("rethrow" if out["rethrow"] else "raising %s" % sorted({str(t) for t, n in out["raise"]})), (f, cn.get("ln")))
+    ctx.need(rule, "functions scanned for catch handlers (%d handlers)" % nh, nf, minimum)
+    # fixtures: the scanner sees a swallowing handler, a translating one, and leaves a rethrowing one alone
+    for nm, want in (("swallows", "normal"), ("passes_on", "rethrow"), ("translates", "raise")):
+        g = fx(ctx, nm)
+        hs = handlers_of(g) if g is not None else []
+        got = handler_outcomes(g, hs[0][0], hs[0][1]) if hs else {"normal": [], "rethrow": [], "raise": []}
+        ctx.fixture(rule, nm, bool(got[want]) and (want == "normal" or not got["normal"]), True, "handler outcome `%s` recognised" % want)
